@@ -3,7 +3,7 @@
 From Coq Require Import List.
 Import ListNotations.
 From WB Require Import Base.Str Base.Json Model.Key Model.Consts Model.Store Model.Entry Model.Core Model.Rest Spec.MapSpec
-  Proofs.CoreFacts Proofs.LenFacts Proofs.C01Proof Proofs.SubsFacts Proofs.C03Proof Proofs.StreamProof Proofs.SysGuard Proofs.RestFacts Proofs.LockHistory Proofs.SessionEnd Proofs.SysKeep.
+  Proofs.CoreFacts Proofs.LenFacts Proofs.C01Proof Proofs.SubsFacts Proofs.C03Proof Proofs.StreamProof Proofs.SysGuard Proofs.RestFacts Proofs.LockHistory Proofs.SessionEnd Proofs.SysKeep Model.Codec Model.Auth Model.Session Model.RestWorld Proofs.WorldCore Proofs.WorldRest Proofs.WorldSys.
 
 (* for a key whose first segment is literally $SYS, an ordinary client passes the guard exactly
    for $SYS/clients/<own id>/{graveGoods,lastWill,clientName}[/...]; anything else is ReadOnlyKey *)
@@ -81,6 +81,24 @@ Theorem C08_session_end_keeps_sys :
     abs (fst (do_disconnected s c)) (s_SYS :: q) = abs s (s_SYS :: q).
 Proof. exact session_end_keeps_sys. Qed.
 Print Assumptions C08_session_end_keeps_sys.
+
+(* at the level of the sockets and the REST front end (Proofs/WorldSys.v): whatever arrives, in whatever order -- lines of
+   every kind on any number of sessions, connections opening and closing with their grave goods and last wills, REST
+   requests of every kind --, a value the server keeps under $SYS outside the per-client bookkeeping ([server_info]: not
+   $SYS/clients or below; $SYS/version, $SYS/license, ...) reads afterwards as before, as long as no pattern with a
+   wildcard in its first segment is involved ([lit_hist]: known finding F4) *)
+Theorem C08_mixed_keeps_info :
+  forall xs w q, Inv (w_core w) -> LenInv (w_core w) -> LH (w_core w) -> Forall wev_ok xs -> lit_hist w xs -> server_info q ->
+    abs (w_core (wfinal' w xs)) (s_SYS :: q) = abs (w_core w) (s_SYS :: q).
+Proof. exact mixed_keeps_info. Qed.
+Print Assumptions C08_mixed_keeps_info.
+
+Example C08_mixed_nonvacuous :
+  let xs := [WS (SOpen 0); WS (SMsg 0 (MSet 1 [36;83;89;83;47;118] JNull)); WR TNone (RSet [36;83;89;83;47;118] (JNum [49]));
+             WR TNone (RPDelete [36;83;89;83;47;35]); WS (SMsg 0 (MSet 2 (topic [s_SYS; s_clients; client_str 1; s_graveGoods]) (JArr [JStr [97;47;35]])));
+             WS (SClose 0)]%N in
+  (Forall wev_ok xs /\ lit_hist (world_init false) xs) /\ server_info [[118]%N].
+Proof. exact mixed_info_demo. Qed.
 
 Example C08_clients_keep_sys_nonvacuous :
   let s0 := fst (step init (OSet 0 [36;83;89;83;47;118]%N (JStr [120]%N) true)) in
